@@ -5,9 +5,13 @@ C08 compile succeeds inside the supported kind, the result is well-formed (uniqu
     plan back-conversion available);
 C09 the compiled problem's kind is contained in the declared resulting kind (also along pipelines).
 """
+import z3
 from rtc import compcheck
+from pyvc.values import Ref, Seq, Map, Opt, Str, SBool, SRef, SUnion, SSeq, SMap, Rec, CList, Loc, ExcVal, fresh_name, zbool, zint, Unsupported
+from pyvc.verify import Unit
+from pyvc.engine import LoopSpec
+from pyvc import builtins as B
 
-UNITS = []
 USES_THEORY = False
 
 
@@ -15,5 +19,126 @@ def bounded(tier, seed):
     return compcheck.run(tier, seed, ["C09"])["C09"]
 
 
+# =========================================================================================== P: the factory's pipeline selection
+# "Therefore a compiler pipeline selected by the factory from a problem kind accepts each intermediate problem it produces":
+# the factory picks stage i for the kind K_i it *declares* (K_0 = the given kind, K_{i+1} = stage i's resulting_problem_kind(K_i)).
+import unified_planning as up
+import unified_planning.engines.factory as _fa
+from unified_planning.engines.mixins.compiler import CompilerMixin as _CM
+from unified_planning.engines.engine import OperationMode as _OM
+from unified_planning.exceptions import UPNoSuitableEngineAvailableException as _NoEngine
+
+EC, PK, CK, ENG = Ref("EngineClass09"), Ref("ProblemKind09"), Ref("CompilationKind09"), Ref("CompilerInstance09")
+_E, _K, _C = EC.z3sort(), PK.z3sort(), CK.z3sort()
+ISC = z3.Function("is_compiler", _E, z3.BoolSort())
+SUPC = z3.Function("supports_compilation", _E, _C, z3.BoolSort())
+SUP = z3.Function("supports", _E, _K, z3.BoolSort())
+RPK = z3.Function("resulting_problem_kind", _E, _K, _C, _K)
+EC.methods["is_compiler"] = lambda e, st, sv, a, k: iter([(st, SBool(ISC(sv.z)))])
+EC.methods["supports_compilation"] = lambda e, st, sv, a, k: iter([(st, SBool(SUPC(sv.z, a[0].z)))])
+EC.methods["supports"] = lambda e, st, sv, a, k: iter([(st, SBool(SUP(sv.z, a[0].z)))])
+EC.methods["resulting_problem_kind"] = lambda e, st, sv, a, k: iter([(st, PK.wrap(RPK(sv.z, a[0].z, a[1].z)))])
+
+
+def _issubclass(eng, st, args, kw):
+    # every engine class answering is_compiler() with True derives from CompilerMixin (is_compiler is overridden only there): assumed
+    c, base = args
+    if isinstance(c, SRef) and c.t is EC and base is _CM:
+        yield st, SBool(ISC(c.z))
+        return
+    raise Unsupported("issubclass outside the contract's model")
+
+
+def SAT(e, k, c_none, c):
+    return z3.And(ISC(e), z3.Or(c_none, SUPC(e, c)), SUP(e, k))
+
+
+class EngineSatisfiesConditions(Unit):
+    prop = "C09"
+    name = "Factory._engine_satisfies_conditions[COMPILER]"
+    doc = "True exactly for a compiler class that supports the compilation kind (when one is asked for) and the problem kind"
+
+    def target(self):
+        return _fa.Factory._engine_satisfies_conditions
+
+    def configure(self, eng):
+        eng.contracts[issubclass] = _issubclass
+
+    def setup(self, eng, st):
+        e, k, c = EC.fresh("EngineClass"), PK.fresh("problem_kind"), CK.fresh("compilation_kind")
+        cn = z3.Bool(fresh_name("compilation_kind.isnone"))
+        fac = st.alloc(Rec(_fa.Factory, {}), "factory")
+        return [fac, e, _OM.COMPILER, k, None, SUnion([(cn, None), (z3.Not(cn), c)]), None, None], {}, dict(e=e, k=k, c=c, cn=cn)
+
+    def post(self, eng, ctx, st, out):
+        if out[0] != "return":
+            return
+        r = eng.as_bool_value(st, out[1])
+        st.oblige("accepted iff it is a compiler supporting the compilation kind and the problem kind",
+                  zbool(r) == SAT(ctx["e"].z, ctx["k"].z, ctx["cn"], ctx["c"].z))
+
+
+QN_GEC = "unified_planning.engines.factory.Factory._get_engine_class"
+SATF = z3.Function("_engine_satisfies_conditions.result", _E, _K, _C, z3.BoolSort())
+PK.fields["features"] = Seq(Str)
+PK.fields["version"] = Ref("KindVersion09")
+
+
+class GetEngineClass(Unit):
+    prop = "C09"
+    name = "Factory._get_engine_class[COMPILER, by kind]"
+    doc = ("for any preference list: the class returned is registered, satisfies _engine_satisfies_conditions for the given problem kind and "
+           "compilation kind, and no class earlier in the preference order does; UPNoSuitableEngineAvailableException exactly when none does")
+    allowed_raises = (_NoEngine,)
+
+    def target(self):
+        return _fa.Factory._get_engine_class
+
+    def configure(self, eng):
+        eng.contracts[issubclass] = _issubclass
+        eng.contracts[_fa.Factory._engine_satisfies_conditions] = \
+            lambda e, st, a, k: iter([(st, SBool(SATF(a[1].z, a[3].z, a[5].z)))])
+        eng.contracts[_fa.ProblemKind] = lambda e, st, a, k: iter([(st, PK.fresh("single_feature_kind"))])
+        eng.contracts[str] = lambda e, st, a, k: iter([(st, Str.fresh("text"))])
+        eng.contracts[_fa.format_table] = lambda e, st, a, k: iter([(st, Str.fresh("table"))])
+
+        def inv(L):
+            i = L.iter_index.z
+            pref, engines, k, c = self._pref, self._engines, self._k, self._c
+            j = z3.Int(fresh_name("j"))
+            return [("no class earlier in the preference order satisfies the conditions",
+                     z3.ForAll([j], z3.Implies(z3.And(0 <= j, j < i), z3.Not(SATF(z3.Select(engines.val, pref.at(B.SInt(j)).z), k.z, c.z)))))]
+        eng.loops[(QN_GEC, 0)] = LoopSpec(inv, modifies=["name", "EngineClass", "x", "pk_v", "planners_features"],
+                                          types={"name": Str, "EngineClass": EC}, opaque=["x", "pk_v", "planners_features"])
+
+    def setup(self, eng, st):
+        k, c = PK.fresh("problem_kind"), CK.fresh("compilation_kind")
+        pref = eng.fresh_of(st, Seq(Str), "preference_list")
+        engines = eng.fresh_of(st, Map(Str, EC), "engines")
+        j = z3.Int(fresh_name("j"))
+        st.assume(z3.ForAll([j], z3.Implies(z3.And(0 <= j, j < pref.n), z3.Select(engines.has, pref.at(B.SInt(j)).z))))   # Factory invariant
+        self._pref, self._engines, self._k, self._c = pref, engines, k, c
+        fac = st.alloc(Rec(_fa.Factory, {"_engines": st.alloc(engines, "dict"), "_preference_list": st.alloc(pref, "list")}), "factory")
+        return [fac, _OM.COMPILER, None, k], {"compilation_kind": c}, dict(k=k, c=c, pref=pref, engines=engines)
+
+    def post(self, eng, ctx, st, out):
+        pref, engines, k, c = ctx["pref"], ctx["engines"], ctx["k"], ctx["c"]
+        j = z3.Int(fresh_name("j"))
+        sat_at = lambda jj: SATF(z3.Select(engines.val, pref.at(B.SInt(jj)).z), k.z, c.z)
+        if out[0] == "raise":
+            st.oblige("no suitable engine only when no class of the preference list satisfies the conditions",
+                      z3.ForAll([j], z3.Implies(z3.And(0 <= j, j < pref.n), z3.Not(sat_at(j)))))
+            return
+        r = out[1]
+        if not (isinstance(r, SRef) and r.t is EC):
+            st.oblige("an engine class is returned", z3.BoolVal(False))
+            return
+        st.oblige("the class returned satisfies the conditions for this problem kind and compilation kind", SATF(r.z, k.z, c.z))
+        st.oblige("it is the first such class in the preference order",
+                  z3.Exists([j], z3.And(0 <= j, j < pref.n, z3.Select(engines.val, pref.at(B.SInt(j)).z) == r.z, sat_at(j),
+                                        z3.ForAll([j2 := z3.Int(fresh_name("j2"))], z3.Implies(z3.And(0 <= j2, j2 < j), z3.Not(sat_at(j2)))))))
+
+
+UNITS = [EngineSatisfiesConditions(), GetEngineClass()]
 LEVEL = "exploration"
 EXPLANATION = __doc__
